@@ -15,7 +15,120 @@ pub const FAULT_KINDS: &[&str] = &[
     "misdirected",
     "splice",
     "garbage",
+    "chunk-dup",
+    "chunk-drop",
+    "chunk-swap",
+    "chunk-move",
+    "chunk-foreign",
 ];
+
+/// Chunk-granular misdirected / lost / duplicated writes: the container stays well-formed (frame
+/// sizes, chunk counts and file size are fixed up, as a writer that re-serialises its chunk list
+/// would), so the damage reaches the semantic layer of the parser instead of dying at framing.
+/// Returns the whole new image as one edit.
+pub fn chunk_fault(r: &mut Rng, kind: &str, base: &[u8], m: &Map, other: &[u8]) -> Option<Edit> {
+    if !m.complete || m.chunks.is_empty() {
+        return None;
+    }
+    // decompose into header + per-frame chunk lists
+    let mut frames: Vec<(Vec<u8>, Vec<Vec<u8>>)> = Vec::new(); // (16-byte frame header, chunks)
+    for (fi, (fs, _)) in m.frames.iter().enumerate() {
+        let hdr = base[*fs..*fs + 16].to_vec();
+        let chunks: Vec<Vec<u8>> = m.chunks.iter().filter(|c| c.frame == fi).map(|c| base[c.off..c.off + c.size].to_vec()).collect();
+        frames.push((hdr, chunks));
+    }
+    let total: usize = frames.iter().map(|f| f.1.len()).sum();
+    if total == 0 {
+        return None;
+    }
+    let pick = |r: &mut Rng, frames: &Vec<(Vec<u8>, Vec<Vec<u8>>)>| -> Option<(usize, usize)> {
+        let nonempty: Vec<usize> = (0..frames.len()).filter(|i| !frames[*i].1.is_empty()).collect();
+        if nonempty.is_empty() {
+            return None;
+        }
+        let f = *r.pick(&nonempty);
+        Some((f, r.usize_below(frames[f].1.len())))
+    };
+    let label;
+    match kind {
+        "chunk-dup" => {
+            let (f, c) = pick(r, &frames)?;
+            let ch = frames[f].1[c].clone();
+            let at = if r.chance(1, 2) { c + 1 } else { r.usize_below(frames[f].1.len() + 1) };
+            label = format!("chunk-dup: chunk {} (type {:#06x}) of frame {} written twice (again at {})", c, get(&ch, 4, 2), f, at);
+            frames[f].1.insert(at, ch);
+        }
+        "chunk-drop" => {
+            let (f, c) = pick(r, &frames)?;
+            let ch = frames[f].1.remove(c);
+            label = format!("chunk-drop: lost write of chunk {} (type {:#06x}) of frame {}", c, get(&ch, 4, 2), f);
+        }
+        "chunk-swap" => {
+            let (f, c) = pick(r, &frames)?;
+            if frames[f].1.len() < 2 {
+                return None;
+            }
+            let d = if r.chance(1, 2) && c + 1 < frames[f].1.len() { c + 1 } else { r.usize_below(frames[f].1.len()) };
+            frames[f].1.swap(c, d);
+            label = format!("chunk-swap: chunks {} and {} of frame {} exchanged", c, d, f);
+        }
+        "chunk-move" => {
+            let (f, c) = pick(r, &frames)?;
+            let ch = frames[f].1.remove(c);
+            let g = r.usize_below(frames.len());
+            let at = r.usize_below(frames[g].1.len() + 1);
+            label = format!("chunk-move: chunk {} (type {:#06x}) of frame {} misdirected to frame {} position {}", c, get(&ch, 4, 2), f, g, at);
+            frames[g].1.insert(at, ch);
+        }
+        "chunk-foreign" => {
+            // a chunk of another file lands in this one (stale block of a different sprite)
+            let om = crate::format::walk(other);
+            if om.chunks.is_empty() {
+                return None;
+            }
+            let oc = &om.chunks[r.usize_below(om.chunks.len())];
+            if oc.off + oc.size > other.len() {
+                return None;
+            }
+            let ch = other[oc.off..oc.off + oc.size].to_vec();
+            let g = r.usize_below(frames.len());
+            let at = r.usize_below(frames[g].1.len() + 1);
+            let replace = r.chance(1, 2) && !frames[g].1.is_empty();
+            label = format!("chunk-foreign: chunk type {:#06x} of another file {} frame {} position {}", oc.ctype, if replace { "replaces a chunk in" } else { "inserted into" }, g, at);
+            if replace {
+                let at = at.min(frames[g].1.len() - 1);
+                frames[g].1[at] = ch;
+            } else {
+                frames[g].1.insert(at, ch);
+            }
+        }
+        _ => return None,
+    }
+    // re-serialise
+    let mut out = base[..128].to_vec();
+    for (hdr, chunks) in &frames {
+        let start = out.len();
+        out.extend_from_slice(hdr);
+        for c in chunks {
+            out.extend_from_slice(c);
+        }
+        let size = (out.len() - start) as u32;
+        crate::format::put32(&mut out, start, size);
+        let n = chunks.len() as u32;
+        crate::format::put16(&mut out, start + 6, n.min(0xFFFF) as u16);
+        crate::format::put32(&mut out, start + 12, if r.chance(1, 2) { n } else if n < 0xFFFF { 0 } else { n });
+    }
+    // keep whatever followed the last frame
+    out.extend_from_slice(&base[m.end.min(base.len())..]);
+    let total_len = out.len() as u32;
+    crate::format::put32(&mut out, 0, total_len);
+    Some(Edit {
+        label,
+        off: 0,
+        del: base.len(),
+        ins: out,
+    })
+}
 
 /// Boundary values for an integer field of `width` bytes whose current value is `cur`.
 /// `related` are reference-aware values ("one more than the referenced collection" etc.).
@@ -128,6 +241,27 @@ pub fn gen_faults(r: &mut Rng, base: &[u8], m: &Map, other: &[u8], kinds: &[&str
     if len == 0 {
         return (edits, fired);
     }
+    // chunk-granular faults rewrite the container, so they come alone (optionally followed by one
+    // field fault on the rewritten image, generated by the caller through a second draw)
+    let chunk_kinds: Vec<&str> = kinds.iter().copied().filter(|k| k.starts_with("chunk-")).collect();
+    if !chunk_kinds.is_empty() && r.chance(1, 5) {
+        let k = *r.pick(&chunk_kinds);
+        if let Some(e) = chunk_fault(r, k, base, m, other) {
+            // optionally a second chunk fault on top
+            let mut out = vec![e];
+            if r.chance(1, 4) {
+                let img = out[0].ins.clone();
+                let m2 = crate::format::walk(&img);
+                let k2 = *r.pick(&chunk_kinds);
+                if let Some(e2) = chunk_fault(r, k2, &img, &m2, other) {
+                    out.push(e2);
+                    fired.push(k2.to_string());
+                }
+            }
+            fired.push(k.to_string());
+            return (out, fired);
+        }
+    }
     let fields = int_fields(m);
     let related = related_values(m);
     let mut length_changing: Vec<Edit> = Vec::new();
@@ -200,7 +334,7 @@ pub fn gen_faults(r: &mut Rng, base: &[u8], m: &Map, other: &[u8], kinds: &[&str
                     _ => (0..fill_len).map(|i| other.get(c + i).copied().unwrap_or(0)).collect(),
                 };
                 length_changing.push(Edit {
-                    label: format!("torn write at {} (sector {}): tail of last sector filled", c, sector),
+                    label: format!("torn: write torn at {} (sector {}): tail of last sector filled", c, sector),
                     off: c,
                     del: len,
                     ins: fill,
@@ -217,7 +351,7 @@ pub fn gen_faults(r: &mut Rng, base: &[u8], m: &Map, other: &[u8], kinds: &[&str
                     (a..b).map(|i| other.get(i).copied().unwrap_or(0)).collect()
                 };
                 edits.push(Edit {
-                    label: format!("lost write: sector {} [{},{}) reads old content", s, a, b),
+                    label: format!("lost-sector: lost write, sector {} [{},{}) reads old content", s, a, b),
                     off: a,
                     del: b - a,
                     ins,
@@ -236,7 +370,7 @@ pub fn gen_faults(r: &mut Rng, base: &[u8], m: &Map, other: &[u8], kinds: &[&str
                 let src = src[..jb - ja].to_vec();
                 if !src.is_empty() {
                     edits.push(Edit {
-                        label: format!("misdirected write: sector {} content at sector {}", i, j),
+                        label: format!("misdirected: sector {} content at sector {}", i, j),
                         off: ja,
                         del: src.len(),
                         ins: src,
@@ -256,6 +390,7 @@ pub fn gen_faults(r: &mut Rng, base: &[u8], m: &Map, other: &[u8], kinds: &[&str
                 });
                 fired.push("splice".into());
             }
+            "chunk-dup" | "chunk-drop" | "chunk-swap" | "chunk-move" | "chunk-foreign" => {}
             "garbage" => {
                 let keep = if r.chance(1, 2) { 128.min(len) } else { 0 };
                 let n = r.usize_below(600);
